@@ -7,14 +7,14 @@ Definition ntbl (tbl : list (str * str)) (s : str) : str := match lookup s tbl w
 Inductive k15 :=
 | K15_marshal (v : value) (t : ty) (obs : res jv)
 | K15_unmarshal (tbl : list (str * str)) (j : jv) (t : ty) (obs : res value)
-| K15_implied (j : jv) (obs : res ty)
+| K15_implied (tbl : list (str * str)) (j : jv) (obs : res ty)
 | K15_oftype (tbl : list (str * str)) (j : jv) (obs : res ty).        (* Type.UnmarshalJSON *)
 
 Definition k15_check (k : k15) : bool :=
   match k with
   | K15_marshal v t obs => res_eqb_anyerr jv_eqb (json_marshal v t) obs
   | K15_unmarshal tbl j t obs => res_eqb_anyerr value_eqb (json_unmarshal (ntbl tbl) j t) obs
-  | K15_implied j obs => res_eqb_anyerr ty_eqb (json_implied_type j) obs
+  | K15_implied tbl j obs => res_eqb_anyerr ty_eqb (json_implied_type (ntbl tbl) j) obs
   | K15_oftype tbl j obs => res_eqb_anyerr ty_eqb (type_of_json (ntbl tbl) j) obs
   end.
 
